@@ -408,7 +408,18 @@ def stateful (s : St) (toks : List String) : Option (St × String) :=
       let cs := ops.filterMap (fun o => match o with | .check c _ => some c.id | _ => none)
       let ds := ops.filterMap (fun o => match o with | .deleteOne c _ => some c.id | _ => none)
       let rs := ops.filterMap (fun o => match o with | .decide r _ => some r.id | _ => none)
-      pure (s, s!"check:{encNats (sortNats cs)} delete:{encNats (sortNats ds)} decide:{encNats (sortNats rs)}")
+      let dis := ops.filterMap (fun o => match o with
+        | .decide r sr => (match s.w.updatePull r sr with
+            | .dispatch f => some s!"{r.file}:{r.groupTo}:{if f then 1 else 0}" | _ => none)
+        | _ => none)
+      pure (s, s!"check:{encNats (sortNats cs)} delete:{encNats (sortNats ds)} decide:{encNats (sortNats rs)} dispatch:{if dis.isEmpty then "-" else ",".intercalate dis}")
+  | ["w.q", "initTasks", host, initd, reqs] => do
+      let ini ← decNats initd
+      let hv : HostView := ⟨← host.toNat?, fun n => ini.contains n⟩
+      let rq ← decRecs (fun l => match l with
+        | [a, b, c] => do pure (⟨← a.toNat?, ← b.toNat?, ← decBool c⟩ : InitReq) | _ => none) reqs
+      let ts := initTasks s.w hv rq
+      pure (s, if ts.isEmpty then "-" else ";".intercalate (ts.map (fun p => s!"{p.1}:{p.2}")))
   | ["w.q", "groupState", g, f] => do pure (s, (s.w.groupState (← g.toNat?) (← f.toNat?)).toString)
   | ["w.dump"] => some (s, worldDump s.w)
   | ["q.reset", keys] => do
